@@ -34,6 +34,11 @@ def plan(tier, seed):
         for via in ('api', 'source'):
             jobs.append(dict(kind='graph', N=nmax, kinds=4 if tier == 'thorough' else 3, via=via, hist=2, **extra))
     jobs.append(dict(kind='graph', N=3, kinds=3, via='api', hist=1, replace=True))
+    # a command fails inside execute() during the first run(); the cause is removed and the same Program is run again
+    for via in ('api', 'source'):
+        jobs.append(dict(kind='graph', N=3, kinds=4 if tier == 'thorough' else 3, via=via, hist=1, cls='FlakyNode', fail=True))
+    # command objects (of this program or of an earlier one, with a namesake here) passed directly as arguments
+    jobs.append(dict(kind='foreign'))
     jobs.append(dict(kind='memo'))
     return jobs
 
@@ -107,14 +112,28 @@ def expected(N, edge, cls='Node', style=None):
     return [ev(i) for i in range(N)]
 
 
-def run_concrete(N, edge, via, history, cls='Node', style=None, replace=None):
+def run_concrete(N, edge, via, history, cls='Node', style=None, replace=None, fail=None):
     """-> list of (label, ok) facts from one real run of the scenario"""
     import mpvnodes
     del mpvnodes.LOG[:]
+    mpvnodes.FAIL.clear()
     facts = []
     p = build(N, edge, via, cls, style)
-    p.run()
     names = node_names(N, style)
+    if fail is not None:
+        # first run: command `fail` fails inside execute(); afterwards the cause is removed and the same Program is run again
+        MPilotError = sys.modules['mpilot.exceptions'].MPilotError
+        mpvnodes.FAIL.add(names[fail])
+        try:
+            p.run()
+            raised = False
+        except MPilotError:
+            raised = True
+        finally:
+            mpvnodes.FAIL.clear()
+        facts.append(('the run in which %s fails reports an error' % names[fail], raised))
+        facts.append(('%s is not finished after its execute() failed' % names[fail], p.commands[names[fail]].is_finished is not True))
+    p.run()
     log = list(mpvnodes.LOG)
     for nm in names:
         facts.append(('%s executed exactly once by run()' % nm, log.count(nm) == 1))
@@ -149,6 +168,8 @@ def run_concrete(N, edge, via, history, cls='Node', style=None, replace=None):
 def harness(ctx, cfg):
     if cfg['kind'] == 'memo':
         return memo_harness(ctx, cfg)
+    if cfg['kind'] == 'foreign':
+        return foreign_harness(ctx, cfg)
     N, K = cfg['N'], cfg['kinds']
     rank = [z3.Int('rank%d' % i) for i in range(N)]
     kind = {}
@@ -177,11 +198,12 @@ def harness(ctx, cfg):
             raise symx.Abort("more than three direct references (bound)")
     history = [ctx.choice('op%d' % t, N + 1) for t in range(cfg.get('hist', 1))]
     replace = ctx.choice('replace', N) if cfg.get('replace') else None
+    fail = ctx.choice('fail', N) if cfg.get('fail') else None
     rec = {'kind': 'graph', 'N': N, 'edges': [[i, j, k] for (i, j), k in sorted(edge.items()) if k], 'via': cfg['via'], 'history': history,
-           'cls': cfg.get('cls', 'Node'), 'names': cfg.get('names'), 'replace': replace}
+           'cls': cfg.get('cls', 'Node'), 'names': cfg.get('names'), 'replace': replace, 'fail': fail}
     MPilotError = sys.modules['mpilot.exceptions'].MPilotError
     try:
-        facts, log = run_concrete(N, edge, cfg['via'], history, cfg.get('cls', 'Node'), cfg.get('names'), replace)
+        facts, log = run_concrete(N, edge, cfg['via'], history, cfg.get('cls', 'Node'), cfg.get('names'), replace, fail)
     except MPilotError as e:
         return {'outcome': 'mpilot:' + type(e).__name__, 'obligations': [('acyclic program runs without error (%s)' % type(e).__name__, z3.BoolVal(False))],
                 'groups': {}, 'replay': rec, 'validated': True}
@@ -189,6 +211,55 @@ def harness(ctx, cfg):
     import re
     groups = {l: re.sub(r'\b(c\d|[sS][lL][oO][pP][eE])\b', '<cmd>', l) for l, _ in facts}
     return {'outcome': 'ok', 'obligations': obs, 'groups': groups, 'replay': rec, 'validated': True}
+
+
+def run_foreign(refkind, namesake, ran_before, namesake_first, twice):
+    """A command object passed directly as an argument (legal through add_command) is the command that is referenced,
+    also when it belongs to an earlier Program and this program has a command of the same result name."""
+    import mpvnodes
+    from mpilot.program import Program
+    del mpvnodes.LOG[:]
+    mpvnodes.FAIL.clear()
+    p1 = Program(libraries=('mpvnodes',))
+    p1.add_command(mpvnodes.Node, 'zz', {})
+    p1.add_command(mpvnodes.Node, 'c0', {'D': 'zz'})
+    if ran_before:
+        p1.run()
+    f = p1.commands['c0']
+    p2 = Program(libraries=('mpvnodes',))
+    arg = {'D': {'D': f}, 'L': {'L': [f]}, 'NL': {'NL': [[f]]}}[refkind]
+    if namesake and namesake_first:
+        p2.add_command(mpvnodes.Node, 'c0', {})
+    p2.add_command(mpvnodes.Node, 'c1', arg)
+    if namesake and not namesake_first:
+        p2.add_command(mpvnodes.Node, 'c0', {})
+    p2.run()
+    if twice:
+        p2.run()
+    fres = ('c0', (('D', 'zz', ('zz', ())),))
+    log = list(mpvnodes.LOG)
+    facts = [('the consumer receives the finished result of the command object it was given', p2.commands['c1']._result == ('c1', ((refkind, 'c0', fres),))),
+             ('the referenced command object executed exactly once', log.count('c0') == 1 + (1 if namesake else 0) and f.is_finished is True and f._result == fres),
+             ('the consumer executed exactly once', log.count('c1') == 1), ('the dependency of the referenced object executed exactly once', log.count('zz') == 1)]
+    if namesake:
+        facts.append(('the namesake in this program computed its own result', p2.commands['c0']._result == ('c0', ())))
+    return facts, log
+
+
+def foreign_harness(ctx, cfg):
+    refkind = ('D', 'L', 'NL')[ctx.choice('refkind', 3)]
+    namesake = ctx.decide(ctx.bool('namesake'))
+    ran_before = ctx.decide(ctx.bool('ran_before'))
+    first = ctx.decide(ctx.bool('namesake_first')) if namesake else False
+    twice = ctx.decide(ctx.bool('run_twice'))
+    rec = {'kind': 'foreign', 'refkind': refkind, 'namesake': namesake, 'ran_before': ran_before, 'namesake_first': first, 'twice': twice}
+    MPilotError = sys.modules['mpilot.exceptions'].MPilotError
+    try:
+        facts, log = run_foreign(refkind, namesake, ran_before, first, twice)
+    except MPilotError as e:
+        return {'outcome': 'mpilot:' + type(e).__name__, 'obligations': [('program with a command object argument runs without error (%s)' % type(e).__name__, z3.BoolVal(False))],
+                'groups': {}, 'replay': rec, 'validated': True}
+    return {'outcome': 'ok', 'obligations': [(l, z3.BoolVal(bool(ok))) for l, ok in facts], 'groups': {}, 'replay': rec, 'validated': True}
 
 
 def memo_harness(ctx, cfg):
@@ -216,12 +287,20 @@ def memo_harness(ctx, cfg):
 
 
 def confirm(rec, label):
+    if rec.get('kind') == 'foreign':
+        MPilotError = sys.modules['mpilot.exceptions'].MPilotError
+        try:
+            facts, log = run_foreign(rec['refkind'], rec['namesake'], rec['ran_before'], rec['namesake_first'], rec['twice'])
+        except MPilotError as e:
+            return True, 'real run raised %s' % type(e).__name__
+        bad = [l for l, ok in facts if not ok]
+        return bool(bad), 'failed facts on a fresh real run: %s; execution log %s' % (bad[:4], log)
     if rec.get('kind') != 'graph':
         return True, 'memo step executed on the real Command class'
     edge = {(i, j): k for i, j, k in rec['edges']}
     MPilotError = sys.modules['mpilot.exceptions'].MPilotError
     try:
-        facts, log = run_concrete(rec['N'], edge, rec['via'], rec['history'], rec.get('cls', 'Node'), rec.get('names'), rec.get('replace'))
+        facts, log = run_concrete(rec['N'], edge, rec['via'], rec['history'], rec.get('cls', 'Node'), rec.get('names'), rec.get('replace'), rec.get('fail'))
     except MPilotError as e:
         return True, 'real run raised %s' % type(e).__name__
     bad = [l for l, ok in facts if not ok]
